@@ -942,8 +942,14 @@ func (t *streamableHTTPClientTransport) terminateSession(ctx context.Context) er
 		}
 	}
 
-	// Send request
-	httpResp, err := t.httpClient.Do(httpReq)
+	if t.client != nil {
+		if err := t.client.applyHTTPBeforeRequest(ctx, httpReq); err != nil {
+			return fmt.Errorf("HTTP before-request failed: %w", err)
+		}
+	}
+
+	// Send request through the configured request handler, like every other request.
+	httpResp, err := t.httpReqHandler.Handle(ctx, t.httpClient, httpReq)
 	if err != nil {
 		return fmt.Errorf("HTTP request failed: %w", err)
 	}
